@@ -141,7 +141,7 @@ def argOps : FilterName → Nat × List Operand
   | .replace_ => (1, [⟨[.cls, .str], .str ""⟩, ⟨[.cls, .str], .str ""⟩])
   | .replace_first_ => (1, [⟨[.cls, .str], .str ""⟩, ⟨[.cls, .str], .str ""⟩])
   | .replace_last_ => (2, [⟨[.cls, .str], .str ""⟩, ⟨[.cls, .str], .str ""⟩])
-  | .slice_ => (1, [⟨[.cls], .nil⟩, ⟨[.cls], .nil⟩])
+  | .slice_ => (1, [⟨[.cls], .nil⟩, ⟨[.cls], .int 1⟩])   -- `if is_undefined(length): length = 1`
   | .split_ => (1, [⟨[.cls, .str], .nil⟩])
   | .upcase_ => (0, [])
   | .strip_ => (0, [])
